@@ -1,0 +1,15 @@
+package common
+
+import (
+	"strings"
+	"unicode/utf8"
+)
+
+// EncodableString reports whether s can safely be given to the canonical JSON
+// encoder used for Frame hashes (github.com/ugorji/go/codec v1.1.7): its
+// quoteStr loops forever on a string that contains the replacement character
+// U+FFFD (which is also what encoding/json substitutes for every invalid UTF-8
+// byte of a received message). Strings with invalid UTF-8 are refused as well.
+func EncodableString(s string) bool {
+	return utf8.ValidString(s) && !strings.ContainsRune(s, utf8.RuneError)
+}
